@@ -1748,4 +1748,106 @@ theorem initState_getD (x : List Bool) (N q : Nat) :
 theorem initState_length (x : List Bool) (N : Nat) (h : x.length ≤ N) : (initState x N).length = N := by
   unfold initState; simp; omega
 
+/-- **one definition `r = e` in the fragment, no final uncomputation**: after every successful run of
+`compile` the qubit mapped to `r` ends with the value of `e`, on every input `x` -/
+theorem compile_single_sem {inputs : List String} {r : String} {e : BExp} {rets : List String}
+    {cs : List Nat} {s : CState}
+    (h : (compile inputs [(r, e)] (some rets) false).run { choices := cs } = .ok ((), s))
+    (hnd : inputs.Nodup) (hfresh : ∀ n ∈ inputs, n ≠ r ∧ reservedName n = false)
+    (hov : overInputs inputs e = true) (htl : treeLike e = true) (hns : isSym e = false)
+    (x : List Bool) (hx : x.length = inputs.length) :
+    ∃ q, dictGet? s.qc.qmap r = some q ∧
+      (runClassical s.qc.gates.toList (initState x s.qc.numQubits)).getD q false =
+        e.eval (envOf (inputs.zip x)) := by
+  unfold compile at h
+  obtain ⟨u0, s0, hmod, h1⟩ := run_bind_ok.mp h
+  have := run_modify_ok.mp hmod; subst this
+  have hg0 : Good { choices := cs, inputs := inputs } := good_init cs inputs
+  obtain ⟨u1, s1, hin, h2⟩ := run_bind_ok.mp h1
+  obtain ⟨st1, hn1, _, hpos⟩ := addInputs_ok inputs hin hg0
+  obtain ⟨ha1, hf1, hm1⟩ := addInputs_scratch inputs hin
+  obtain ⟨hga1, hex1, _⟩ := addInputs_quiet inputs hin
+  obtain ⟨u2, s2, hdefs, h3⟩ := run_bind_ok.mp h2
+  obtain ⟨st2, _⟩ := compileDefs_ok (B := (· = r)) [(r, e)] hdefs st1.good
+    (fun p hp => by simp at hp; rw [hp])
+  have hg2 := st2.good
+  obtain ⟨u3, s3, hrem, h4⟩ := run_bind_ok.mp h3
+  obtain ⟨hrg, hrq, hrn⟩ := removeIdentities_run hrem
+  have hs : s = s3 := by
+    dsimp only at h4
+    rcases run_ite_ok.mp h4 with ⟨hc, _⟩ | ⟨_, h4⟩
+    · cases hc
+    · exact (run_pure_ok.mp h4).2
+  subst hs
+  -- ambient facts for this input
+  have hn1' : s1.qc.numQubits = inputs.length := by rw [hn1]; simp
+  have hnin2 : inputs.length ≤ s2.qc.numQubits := by rw [← hn1']; exact st2.nq_le
+  let σ0 : FState := toF (initState x s.qc.numQubits)
+  have amb : Amb inputs σ0 r := by
+    refine ⟨hfresh, fun q hq => ?_⟩
+    show (initState x s.qc.numQubits).getD q false = false
+    rw [initState_getD]
+    have : x[q]? = none := by simp; omega
+    simp [List.getD_eq_getElem?_getD, this]
+  have hp1 : Pre inputs (envOf (inputs.zip x)) σ0 s1 := by
+    refine ⟨st1.good, hf1, Nat.le_of_eq hn1'.symm, ⟨?_, ?_, ?_⟩, ?_, ?_⟩
+    · rw [ha1]; intro a ha; cases ha
+    · rw [hf1]; intro a ha; cases ha
+    · rw [hm1]; intro a ha; cases ha
+    · intro i n hi
+      have := hpos hnd (fun m hm => (hfresh m hm).2) i n hi
+      simpa using this
+    · intro i n hi
+      show runF s1.qc.gates.toList σ0 i = _
+      rw [hga1]
+      show (initState x s.qc.numQubits).getD i false = _
+      rw [initState_getD, envOf_zip hnd hi]
+  -- the statement loop
+  unfold compileDefs at hdefs
+  dsimp only at hdefs
+  obtain ⟨iret, t1, he, k1⟩ := run_bind_ok.mp hdefs
+  obtain ⟨u4, t2, hset, k2⟩ := run_bind_ok.mp k1
+  obtain ⟨u5, t3, hmap, k3⟩ := run_bind_ok.mp k2
+  obtain ⟨unc, t4, hunc, k4⟩ := run_bind_ok.mp k3
+  obtain ⟨u6, t5, hrm, k5⟩ := run_bind_ok.mp k4
+  unfold compileDefs at k5
+  obtain ⟨_, rfl⟩ := run_pure_ok.mp k5
+  obtain ⟨q1, hlt⟩ := exprSpec (B := (· = r)) e none (some r) he st1.good (by intro d hd; cases hd)
+    (by intro y hy; cases hy; rfl)
+  obtain ⟨sem1, hv1, _⟩ := exprSem (ρ := envOf (inputs.zip x)) amb e hov (distinctB_iff.mp htl) none (some r) he hp1
+    (by intro p hp; rw [hex1] at hp; cases hp) (by intro d hd; cases hd) (by intro y hy; cases hy; rfl)
+    (by intro hs; rw [hns] at hs; cases hs)
+  obtain ⟨_, hval⟩ := hv1 rfl
+  have hnm : iret ∉ t1.qc.marked := by
+    intro hm
+    rcases sem1.marks iret hm with h | h
+    · rw [hm1] at h; cases h
+    · exact h.2 rfl rfl
+  have q2 : Step (· = r) t1 t2 := expqSet_ok hset q1.good hlt
+  obtain ⟨hqc2, _⟩ := expqSet_run hset
+  obtain ⟨q3, hkey⟩ := mapQubit_ok (B := (· = r)) hmap q2.good (Nat.lt_of_lt_of_le hlt q2.nq_le) rfl
+    (by intro hp
+        have : r.startsWith "__" = true := by simpa using hp
+        simp [scratchName, this])
+  obtain ⟨hg3, hm3, _⟩ := mapQubit_run hmap
+  obtain ⟨extra, e1, e2, e3, e4⟩ := uncompute_gates hunc
+  have hqc5 := expqRemove_run hrm
+  have hcur : cur σ0 s2 iret = e.eval (envOf (inputs.zip x)) := by
+    unfold cur
+    rw [hqc5, e1, runF_append, untargeted_runF]
+    · rw [hg3, hqc2]; exact hval
+    · intro g hg hlast
+      have ht : g.target = iret := by unfold AGate.target; rw [hlast]; rfl
+      have := e2 g hg
+      rw [ht, hm3, hqc2] at this
+      exact hnm this
+  refine ⟨iret, ?_, ?_⟩
+  · rw [hrq, hqc5, e3]; exact hkey
+  · rw [hrg, removeIdentitiesList_sound _ (fun g hg => (hg2.gates_ok g hg).2.1)]
+    have hlen : (initState x s.qc.numQubits).length = s2.qc.numQubits := by
+      rw [initState_length x _ (by rw [hrn, hx]; exact hnin2), hrn]
+    have := congrFun (runF_spec s2.qc.gates.toList (initState x s.qc.numQubits)
+      (fun g hg w hw => by rw [hlen]; exact (hg2.gates_ok g hg).2.2.1 w hw)) iret
+    exact this.trans hcur
+
 end QV.Compiler
